@@ -401,3 +401,102 @@ def metadata(ctx):
 def patch_ctx(*mods):
     from fv import patch
     return patch.patched(*mods)
+
+
+# ---------------------------------------------------------------------------------------
+# O5: rendering keeps entities apart — the Markdown converter is one shared object; what one entity's comment defines (footnotes, link
+# references, abbreviations) must not reach the rendered documentation of another
+# ---------------------------------------------------------------------------------------
+DOC_STYLES = [
+    ("plain", ["alfa{n} bravo{n}"]),
+    ("footnote", ["charlie{n}[^1] delta{n}", "", "[^1]: foot{n} note{n}"]),
+    ("link-reference", ["see [echo{n}][lnk] foxtrot{n}", "", '[lnk]: http://example.org/{n} "title{n}"']),
+    ("abbreviation", ["GOLF{n} hotel{n}", "", "*[GOLF{n}]: india{n} juliet{n}"]),
+    ("list", ["kilo{n}", "", "- lima{n}", "- mike{n}"]),
+    ("code", ["november{n}", "", "    oscar{n} = papa{n}"]),
+    ("note", ["@note quebec{n} romeo{n}", "@endnote", "sierra{n}"]),
+]
+TRACER_OF = {"v1": "1", "v2": "2", "s1": "3"}
+TRACER_RE = _re.compile(r"[A-Za-z]+[123]\b")
+
+
+def _iso_program(styles):
+    lines = ["module m"]
+    for i, (name, doc) in enumerate(styles, 1):
+        lines.append(f"integer :: v{i}")
+        lines += ["!! " + l.replace("{n}", str(i)) if l else "!!" for l in doc]
+    lines += ["contains", "subroutine s1()"] + ["!! " + l.replace("{n}", "3") if l else "!!" for l in styles[0][1]] + ["end subroutine s1", "end module m"]
+    return lines
+
+
+def _rendered_words(styles):
+    """render with the real pipeline (reader, parser, MetaMarkdown, FortranBase.markdown): {entity: tracer words in its rendered doc}"""
+    import html as _html
+    import ford.sourceform as sf
+    from ford._markdown import MetaMarkdown
+
+    old = sf.namelist
+    sf.namelist = sf.NameSelector()
+    try:
+        f = parserh.parse_source_text("\n".join(_iso_program(styles)) + "\n")
+        md = MetaMarkdown(project=None)
+        ents = list(f.modules[0].variables) + list(f.modules[0].subroutines)
+        # the order FORD converts them in: as the project does (markdownable items of the file)
+        for item in f.markdownable_items:   # as Project.markdown does
+            item.markdown(md)
+        out = {}
+        for e in ents:
+            text = _html.unescape(_re.sub(r"<[^>]*>", " ", str(getattr(e, "doc", "") or "")))
+            out[str(e.name)] = sorted(set(w.lower() for w in TRACER_RE.findall(text)))
+        return out
+    finally:
+        sf.namelist = old
+
+
+def replay_iso(w):
+    styles = [DOC_STYLES[i] for i in w["styles"]]
+    got = _rendered_words(styles)
+    foreign = {k: [x for x in v if not x.endswith(TRACER_OF[k])] for k, v in got.items()}
+    foreign = {k: v for k, v in foreign.items() if v}
+    own_missing = {k: True for k, v in got.items() if not v}
+    return bool(foreign) or bool(own_missing), {"doc styles of v1, v2": [s_[0] for s_ in styles], "words of another entity in the rendered documentation": foreign,
+                                                "entities whose own words are missing": sorted(own_missing)}
+
+
+@obligation("C03", "O5.rendering-keeps-entities-apart", engine="SX(CV)", timeout=900)
+def isolation(ctx):
+    """two documented variables and a procedure, the style of each variable's comment symbolic (plain, footnote, link reference, abbreviation,
+    list, code, note box): after the real Markdown conversion of all entities, the rendered documentation of each holds its own words and
+    none of another entity's"""
+    import ford.sourceform as sf
+
+    ctx.encode_fn(sf.FortranBase.markdown)
+    ctx.bounds.update({"comment styles": [s_[0] for s_ in DOC_STYLES], "entities": 3})
+    ctx.stubs.append("python-markdown needs concrete text: one path per pair of styles; everything else is the real pipeline")
+
+    def h(E):
+        i1 = CV.choice(E, "style1", list(range(len(DOC_STYLES)))).concretize()
+        i2 = CV.choice(E, "style2", list(range(len(DOC_STYLES)))).concretize()
+        E.e.snapshot = lambda m: {"styles": [i1, i2]}
+        from fv import patch as _p
+        with _p.suspended():
+            got = _rendered_words([DOC_STYLES[i1], DOC_STYLES[i2]])
+        E.reachable("rendered")
+        for ent, words in sorted(got.items()):
+            E.require(bool(words), f"{ent}: its own documentation words are missing from the rendered documentation")
+            E.require(all(x.endswith(TRACER_OF[ent]) for x in words), f"{ent}: words of another entity's comment appear in its rendered documentation")
+
+    E = sym.Engine(ctx, max_paths=500, incremental=True)
+    found = E.explore(h)
+    seen = set()
+    for (label, m, pc), snap in zip(found, E.snapshots):
+        key = label.split(":", 1)[1]
+        if key in seen or not snap:
+            continue
+        seen.add(key)
+        ctx.report(label, snap, replay_iso)
+    if E.reached.get("rendered"):
+        ctx.twins += 1
+    else:
+        ctx.inconclusive.append("vacuity: nothing rendered")
+    ctx.sample({"paths": E.paths})
